@@ -141,6 +141,10 @@ def main(ctx, cases=None):
                     if sw in table and table[sw] <= tol:
                         fid = "+".join(SITE[x] for x in (sw.split("+") if sw != "no-screens" else list(SITE)))
                         break
+            if fid and "type1-window" in fid.split("+") and (r.warn[0] > 0 or s.warn[0] > 0):
+                # the window changes the result because the type-1 quadrature did not converge at all (the library says so itself):
+                # screened and unscreened are both unconverged values
+                fid = "+".join("type1-quadrature-unconverged" if x == "type1-window" else x for x in fid.split("+"))
             i = max(range(len(r.vals)), key=lambda j: abs(r.vals[j] - s.vals[j]))
             out.append({"case": r.case, "request": pl.fmt_case(r.case), "error": d, "allowed": tol, "attributed_to": fid, "difference_to_unscreened_with_one_screen_off": table,
                         "screened": r.vals[i], "unscreened": s.vals[i],
